@@ -50,7 +50,7 @@ Theorem info_fields : forall m p d, meta_ok m ->
   field_ok (info_of m p d) "Creator" (mCreator m) = true.
 Proof.
   intros m p d [H1 [H2 [H3 [H4 [H5 _]]]]]. unfold field_ok, info_of.
-  repeat split; rewrite !dget_app;
+  split; [| split; [| split; [| split]]]; rewrite !dget_app;
     repeat (first [ rewrite dget_opt_same | rewrite dget_opt_other by reflexivity ]);
     cbv beta iota; apply pick; solve [ reflexivity | assumption ].
 Qed.
@@ -65,21 +65,24 @@ Proof.
   cbn [dget]. rewrite String.eqb_refl. apply fv_sval. exact H.
 Qed.
 
-Definition ascii_str (s : string) : list Z := map (fun a => Z.of_N (Ascii.N_of_ascii a)) (list_ascii_of_string s).
+Ltac tok :=
+  split; [ repeat (apply Forall_cons; [unfold scalar; lia |]); apply Forall_nil
+         | intros _; repeat (apply Forall_cons; [unfold doc_ascii; lia |]); apply Forall_nil ].
 
+(** title "T", creator "canvas", language "es-CL" *)
 Example lang_field_sat :
-  let m := mkMeta (ascii_str "T") [] [] [] (ascii_str "canvas") (ascii_str "es-CL") in
+  let m := mkMeta [84] [] [] [] [99; 97; 110; 118; 97; 115] [101; 115; 45; 67; 76] in
   meta_ok m /\ field_ok (catalog_of m) "Lang" (mLang m) = true.
 Proof.
-  split; [| vm_compute; reflexivity].
-  unfold meta_ok, text_ok. cbn [mTitle mSubject mKeywords mAuthor mCreator mLang].
-  repeat split; try (intros _); repeat constructor; unfold scalar, doc_ascii; cbn; lia.
+  intros m. split; [| vm_compute; reflexivity].
+  unfold meta_ok, m. cbn [mTitle mSubject mKeywords mAuthor mCreator mLang].
+  split; [tok | split; [tok | split; [tok | split; [tok | split; [tok | tok]]]]].
 Qed.
 
 (** REFUTED (tree before the fix): with creator "canvas" and language "en" the catalog says Lang = "canvas" *)
 Theorem lang_field_v0_refuted : exists m, meta_ok m /\ field_ok (catalog_of_v0 m) "Lang" (mLang m) = false.
 Proof.
-  exists (mkMeta [] [] [] [] (ascii_str "canvas") (ascii_str "en")). split; [| vm_compute; reflexivity].
-  unfold meta_ok, text_ok. cbn [mTitle mSubject mKeywords mAuthor mCreator mLang].
-  repeat split; try (intros _); repeat constructor; unfold scalar, doc_ascii; cbn; lia.
+  exists (mkMeta [] [] [] [] [99; 97; 110; 118; 97; 115] [101; 110]). split; [| vm_compute; reflexivity].
+  unfold meta_ok. cbn [mTitle mSubject mKeywords mAuthor mCreator mLang].
+  split; [tok | split; [tok | split; [tok | split; [tok | split; [tok | tok]]]]].
 Qed.
